@@ -259,7 +259,7 @@ def _decorate(obj, plan, kind):
         per_item['label'] = ['ü%dβ' % i for i in range(n_item)]
         o.descriptors['who'] = 'José 中'
         per_col['glyph'] = np.array(['é%d' % i for i in range(n_col)])
-    if 'naninf' in dec and arr.size:
+    if 'naninf' in dec and arr.size and arr.dtype.kind == 'f':
         flat = arr.reshape(-1)
         flat[r.randrange(flat.size)] = np.nan
         flat[r.randrange(flat.size)] = np.inf
